@@ -75,7 +75,19 @@ Accepted subset (anything else raises TranslateError with file:line):
               module / the class that is not itself translated (`_print_exit_notice()`): its
               body is inlined in place (no parameters, no return of a value, no early
               return; it sees none of the caller's locals);
-              for x in (<literal tuple / list of constants>): BODY  is unrolled (BODY once per
+              [x =] helper(args) for a private helper WITH parameters and / or return values:
+              its body is inlined; what follows the call is a local continuation k'N (world,
+              printed lines[, returned value]) defined before the parameters are bound, every
+              `return e` of the helper calls it (`return` / `return None` yield None; the
+              returned types are joined: None and int give None-or-int); positional
+              arguments are evaluated first and bound to the parameters (an object argument
+              stays a compile-time handle); a *args parameter is accepted when every
+              argument it receives is a literal, and may then only be iterated;
+              x = self.save_config (another name of one of the objects: a handle);
+              try: ... except H: ... else: ... (the else block runs after the body, outside
+              the handler's reach; nothing may follow the statement);
+              for x in (<literal tuple / list of constants>) / for x in <*args of literals>:
+              BODY  is unrolled (BODY once per
               element, no break / continue; x itself is dropped: it may only be used in
               statements that are not modelled and in the stderr prints of keypress);
               x = str(<int>) (a local on its way into the save configuration, carried as the
@@ -222,11 +234,13 @@ class Env:
     def __init__(self):
         self.types = {}      # name -> type
         self.handles = {}    # name -> handle kind
+        self.consts = {}     # name -> list of constant nodes (the *args of an inlined helper called with literals)
 
     def copy(self):
         e = Env()
         e.types = dict(self.types)
         e.handles = dict(self.handles)
+        e.consts = dict(self.consts)
         return e
 
 
@@ -234,8 +248,9 @@ class K:
     """the context of a block: what falling off its end, `continue`, `break`, `return e` and a propagating exception
     become.  Each takes the environment at that point; exc returns the (possibly multi-line) body of `fun e' => ...`."""
 
-    def __init__(self, fall, cont, brk, ret, exc):
+    def __init__(self, fall, cont, brk, ret, exc, none_value=False):
         self.fall, self.cont, self.brk, self.ret, self.exc = fall, cont, brk, ret, exc
+        self.none_value = none_value     # `return None` / `return` yields the VALUE None (inside an inlined helper)
 
 
 class _EndTry(ast.stmt):
@@ -784,6 +799,8 @@ class FunctionTranslator:
 
     def return_(self, s, env, k, ind):
         if s.value is None or (isinstance(s.value, ast.Constant) and s.value.value is None):
+            if k.none_value:
+                return self.line(ind, k.ret(s, "(@None Z)", NONE, env), s)
             return self.line(ind, k.ret(s, "tt", UNIT, env), s)
         pre = []
         t, ty = self.expr(s.value, env, pre)
@@ -854,6 +871,20 @@ class FunctionTranslator:
         if not isinstance(t, ast.Name):
             self.fail(s, "unsupported assignment target")
         x = t.id
+        # ---- a local alias of one of the objects (save_config = self.save_config)
+        hv = self.handle_of(v, env)
+        if hv in (PCFG, QUEUE, CFG, REPORT):
+            self.check_name(s, x)
+            if x in env.types or (x in env.handles and env.handles[x] != hv):
+                self.fail(s, "%r is rebound" % x)
+            env.handles[x] = hv
+            return self.line(ind, "(* %d: another name of the same object: %s *)" % (s.lineno, _comment(ast.unparse(s)))) \
+                + self.block(rest, env, k, ind)
+        # ---- x = helper(args): the body of the private helper inlined, its returns feed x
+        if isinstance(v, ast.Call):
+            h = self.helper_of(v)
+            if h is not None:
+                return self.inline_call(s, x, h, v, rest, env, k, ind)
         if self.is_ghost_value(v, env):
             # a value only the status bookkeeping can use (a float product, item['prob'], ...): the local is dropped;
             # a later use of it outside a skipped statement is refused (unknown variable)
@@ -950,7 +981,12 @@ class FunctionTranslator:
         if not done:
             h = self.helper_of(c)
             if h is not None:
-                return self.inline(s, h, rest, env, k, ind)
+                fa = h[1].args
+                simple = not c.args and not fa.vararg and not any(
+                    isinstance(n, ast.Return) and n.value is not None for n in ast.walk(h[1]))
+                if simple:
+                    return self.inline(s, h, rest, env, k, ind)
+                return self.inline_call(s, None, h, c, rest, env, k, ind)
         if not done:
             # an operation whose value is dropped
             got = self.op_expr(c, env, pre)
@@ -961,8 +997,8 @@ class FunctionTranslator:
 
     # ---- private helpers (inlined on demand) and loops over a literal tuple (unrolled)
     def helper_of(self, c):
-        """c is a call, without arguments, of a private helper of the module / the class -> (name, FunctionDef)"""
-        if c.args or c.keywords:
+        """c is a call of a private helper of the module / the class -> (name, FunctionDef)"""
+        if c.keywords or any(isinstance(a, ast.Starred) for a in c.args):
             return None
         f = c.func
         if isinstance(f, ast.Name) and ("", f.id) in self.helpers:
@@ -993,11 +1029,109 @@ class FunctionTranslator:
             s.lineno, _comment(ast.unparse(s)), fn.lineno, fn.end_lineno))
         return text + self.block(body + [_EndInline(env, name, s.lineno)] + rest, henv, k, ind)
 
+    def inline_call(self, s, x, h, call, rest, env, k, ind):
+        """[x =] helper(args): the body of a private helper with parameters and / or return values, inlined.  What
+        follows the call is a local continuation k'N that receives the world, the printed lines and (for `x = ...`)
+        the returned value; it is defined BEFORE the helper's parameters are bound, so the helper's names cannot
+        capture the caller's.  Positional parameters are bound to the (typed) argument values, evaluated first; a
+        *args parameter is accepted when every argument it receives is a literal (it may then only be iterated)."""
+        name, fn = h
+        a = fn.args
+        if fn.decorator_list or a.kwarg or a.kwonlyargs or a.posonlyargs or a.defaults or isinstance(fn, ast.AsyncFunctionDef):
+            self.fail(s, "unsupported signature of the helper %s" % name)
+        params = [p.arg for p in a.args]
+        if name.startswith("self."):
+            if params[:1] != ["self"]:
+                self.fail(s, "the helper %s is not a method" % name)
+            params = params[1:]
+        if name in self.inlining:
+            self.fail(s, "recursive helper")
+        if len(call.args) < len(params) or (len(call.args) > len(params) and not a.vararg):
+            self.fail(s, "the helper %s is called with the wrong number of arguments" % name)
+        for n in ast.walk(fn):
+            if isinstance(n, (ast.Yield, ast.YieldFrom, ast.Global, ast.Nonlocal)):
+                self.fail(s, "unsupported construct in the helper %s" % name)
+        henv = Env()
+        pre, lets = [], []
+        for pname, arg in zip(params, call.args):
+            self.check_name(s, pname)
+            hd = self.handle_of(arg, env)
+            if hd is not None:
+                henv.handles[pname] = hd
+                continue
+            if isinstance(arg, ast.Constant) and arg.value is None:
+                t, ty = "(@None Z)", OPTINT
+            else:
+                t, ty = self.expr(arg, env, pre)
+            tmp = self.temp("a")
+            pre.append(("let", tmp, t))
+            lets.append((pname, tmp))
+            henv.types[pname] = OPTINT if ty == NONE else ty
+        extra = call.args[len(params):]
+        if a.vararg:
+            if not all(isinstance(e, ast.Constant) for e in extra):
+                self.fail(s, "the *%s parameter of the helper %s receives a value that is not a literal" % (a.vararg.arg, name))
+            henv.consts[a.vararg.arg] = list(extra)
+        body = list(fn.body)
+
+        def run(kk, i):
+            self.inlining.append(name)
+            try:
+                return self.block(body, henv.copy(), kk, i)
+            finally:
+                self.inlining.remove(name)
+
+        def nolo(what):
+            def f(n, e):
+                self.fail(n, "%s in the helper %s outside a loop" % (what, name))
+            return f
+
+        rty = None
+        if x is not None:
+            # dry run: the types of the returned values
+            seen = []
+            uid, used = self.uid, set(self.used_ops)
+            run(K(lambda n, e: seen.append(NONE) or "?", nolo("continue"), nolo("break"),
+                  lambda n, t, ty, e: seen.append(ty) or "?", k.exc, none_value=True), ind)
+            self.uid, self.used_ops = uid, used
+            rty = self.join_type(seen) if seen else None
+            if rty is None or rty not in COQ_TYPE:
+                self.fail(s, "the helper %s returns values of types %r" % (name, sorted(set(seen))))
+        kname = self.temp("k")
+        after = env.copy()
+        if x is not None:
+            self.bind(s, x, rty, after)
+        text, closes = self.opens(pre, env, k, ind, s)
+        text += self.line(ind, "(* %d: %s  -- the body of the helper (lines %d-%d) inlined; what follows the call is %s *)" % (
+            s.lineno, _comment(ast.unparse(s).split("\n")[0]), fn.lineno, fn.end_lineno, kname))
+        text += self.line(ind, "let %s := fun '(w, printed%s) =>" % (kname, (", " + x) if x is not None else ""))
+        text += _close(self.block(rest, after, k, ind + 2), " in")
+        for pname, tmp in lets:
+            text += self.line(ind, "let %s := %s in" % (pname, tmp))
+
+        def ret(node, t, ty, e):
+            if x is None:
+                if ty not in (UNIT, NONE):
+                    self.fail(node, "the value returned by the helper %s is dropped" % name)
+                return "%s (w, printed)" % kname
+            return "%s (w, printed, %s)" % (kname, self.coerce(node, t, ty, rty))
+
+        def fall(node, e):
+            return ret(node or s, "(@None Z)", NONE, e)
+
+        text += run(K(fall, nolo("continue"), nolo("break"), ret, k.exc, none_value=True), ind)
+        return self.wrap(closes, text)
+
     def unrolled(self, s, env):
         """for x in (<constants>): BODY  ->  BODY repeated; x itself is dropped (it may only be used in statements
         that are not modelled or in stderr prints)"""
-        if s.orelse or not isinstance(s.target, ast.Name) or not isinstance(s.iter, (ast.Tuple, ast.List)) \
-                or not all(isinstance(e, ast.Constant) for e in s.iter.elts):
+        if isinstance(s.iter, ast.Name) and s.iter.id in env.consts:
+            elts = env.consts[s.iter.id]         # the *args of an inlined helper, all literals at this call
+        elif isinstance(s.iter, (ast.Tuple, ast.List)) and all(isinstance(e, ast.Constant) for e in s.iter.elts):
+            elts = s.iter.elts
+        else:
+            elts = None
+        if s.orelse or not isinstance(s.target, ast.Name) or elts is None:
             self.fail(s, "a for loop is supported only over a literal tuple / list of constants (it is unrolled)")
         for b in s.body:
             for n in ast.walk(b):
@@ -1008,7 +1142,7 @@ class FunctionTranslator:
             self.fail(s, "the loop variable %r is already bound" % x)
         if x in self.assigned(s.body):
             self.fail(s, "the loop variable is assigned in the loop")
-        return list(s.body) * len(s.iter.elts)
+        return list(s.body) * len(elts)
 
     # ---- conditionals
     def must_assign(self, stmts):
@@ -1066,7 +1200,7 @@ class FunctionTranslator:
                 return "?"
 
             uid = self.uid
-            build(K(probe, k.cont, k.brk, k.ret, k.exc), ind)
+            build(K(probe, k.cont, k.brk, k.ret, k.exc, k.none_value), ind)
             self.uid = uid
             for n in new:
                 ty = self.join_type([r[n] for r in seen if n in r]) if seen and all(n in r for r in seen) else None
@@ -1084,7 +1218,7 @@ class FunctionTranslator:
         def fall(node, e):
             return "%s %s" % (kname, self.state_now(node or s, names, entry, e))
 
-        return text + build(K(fall, k.cont, k.brk, k.ret, k.exc), ind)
+        return text + build(K(fall, k.cont, k.brk, k.ret, k.exc, k.none_value), ind)
 
     def if_(self, s, rest, env, k, ind):
         body, orelse = list(s.body), list(s.orelse)
@@ -1164,7 +1298,7 @@ class FunctionTranslator:
         def exc(e, i):
             return self.line(i, "LReturn (") + _close(k.exc(e, i + 1), ")")
 
-        body_k = K(cont, cont, brk, ret, exc)
+        body_k = K(cont, cont, brk, ret, exc, k.none_value)
         out = self.line(ind, "while_loop fuel (fun '%s =>" % tup, s)
         always = isinstance(s.test, ast.Constant) and s.test.value is True
         if always:
@@ -1192,8 +1326,8 @@ class FunctionTranslator:
 
     # ---- try / except
     def try_(self, s, rest, env, k, ind):
-        if s.orelse or s.finalbody or len(s.handlers) != 1:
-            self.fail(s, "only try: ... except <one handler>: ... is supported")
+        if s.finalbody or len(s.handlers) != 1:
+            self.fail(s, "only try: ... except <one handler>: ... [else: ...] is supported")
         h = s.handlers[0]
         if h.type is None:
             catches_all = True
@@ -1212,7 +1346,7 @@ class FunctionTranslator:
                 he = e.copy()
                 if h.name:
                     he.handles[h.name] = EXCV
-                k_h = K(k2.fall, k.cont, k.brk, k.ret, k.exc)
+                k_h = K(k2.fall, k.cont, k.brk, k.ret, k.exc, k.none_value)
                 outer = k.exc(e, i + 1)
                 if catches_all:
                     t = self.line(i, "match e' with OutOfFuel =>") + outer
@@ -1225,15 +1359,22 @@ class FunctionTranslator:
                     t += self.line(i, "| _ =>") + outer
                 return _close(t, " end")
 
-            k_body = K(k2.fall, k.cont, k.brk, k.ret, exc)
-            return self.line(i2, "(* %d: try: *)" % s.lineno) + self.block(body, env.copy(), k_body, i2)
+            k_body = K(k2.fall, k.cont, k.brk, k.ret, exc, k.none_value)
+            stmts = body
+            if orelse:
+                # else: runs after the body, outside the handler's reach
+                stmts = body + [_EndTry(K(k2.fall, k.cont, k.brk, k.ret, k.exc, k.none_value), s.end_lineno)] + orelse
+            return self.line(i2, "(* %d: try: *)" % s.lineno) + self.block(stmts, env.copy(), k_body, i2)
 
+        orelse = list(s.orelse)
+        if orelse and rest:
+            self.fail(s, "try ... else followed by more statements")
         if rest and self.terminates(hbody) and not self.terminates(body):
             # the handler leaves: what follows continues the body, outside the handler's reach, and sees the
             # variables the body bound
             body = body + [_EndTry(k, s.end_lineno)] + rest
             return build(k, ind)
-        return self.with_join(s, list(s.body) + hbody, rest, env, k, ind, build)
+        return self.with_join(s, list(s.body) + hbody + list(s.orelse), rest, env, k, ind, build)
 
     def with_pattern(self, b, env):
         """with open(self.save_filename, 'w') as f: self.save_config.write(f)  ->  a marker statement"""
